@@ -497,12 +497,25 @@ pub fn do_check(
     opts: &Opts,
     skip_tests: bool,
 ) -> CheckObs {
+    do_check_matching(project, capture, root, opts, skip_tests, None)
+}
+
+/// `aiken check -m "<module>.{<name>}" --exact-match` when `only` is given.
+pub fn do_check_matching(
+    project: &mut Project<Capture>,
+    capture: &Capture,
+    root: &Path,
+    opts: &Opts,
+    skip_tests: bool,
+    only: Option<(String, String)>,
+) -> CheckObs {
     capture.tests.borrow_mut().clear();
+    let exact = only.is_some();
     let res = project.check(
         skip_tests,
-        None,
+        only.map(|(m, n)| vec![format!("{m}.{{{n}}}")]),
         false,
-        false,
+        exact,
         opts.seed,
         opts.max_success,
         CoverageMode::default(),
